@@ -133,6 +133,9 @@ pub fn eval(case: &Case, st: &mut Stats) -> Result<(), String> {
 pub enum PaOp {
     Init(Vec<u8>),
     Clear,
+    /// an initialisation that must be refused (a symbol >= 64 after some valid ones): it is one of the
+    /// "earlier initialisations" after which the object must still behave like a fresh one
+    InitRefused(Vec<u8>, u8),
 }
 
 #[derive(Debug, Clone, Serialize, Deserialize)]
@@ -162,6 +165,18 @@ pub fn eval_pa(case: &PaCase, st: &mut Stats) -> Result<(), String> {
                 cur.clear();
                 ensure!(pa == BlockHashPositionArray::new(), "clear() does not give the state of new() (step {})", step);
                 st.class("pa_clear");
+            }
+            PaOp::InitRefused(s, bad) => {
+                let mut v = s.clone();
+                v.push(64 + (bad % 192));
+                v.extend_from_slice(s);
+                let r = crate::engine::lib(|| pa.init_from(&v));
+                ensure!(r.is_err(), "init_from() accepted a string with the symbol {} (step {})", v[s.len()], step);
+                st.class("pa_init_refused");
+                // what the object represents now is unspecified by the property; it only has to be a valid object,
+                // and every later initialisation has to behave as on a fresh one
+                ensure!(must("is_valid", || pa.is_valid())?, "a refused init_from() left an invalid position array behind (step {})", step);
+                continue;
             }
         }
         let ctx = format!("step {} string {:?} after {:?}", step, cur, &history[..history.len().saturating_sub(1)]);
@@ -305,7 +320,7 @@ pub fn subchecks(tier: Tier) -> Vec<SubCheck> {
             tier.pick(600_000, 6_000_000),
             || {
                 (
-                    proptest::collection::vec(prop_oneof![5 => gens::block_hash(64).prop_map(PaOp::Init), 1 => Just(PaOp::Clear)], 1..=5),
+                    proptest::collection::vec(prop_oneof![6 => gens::block_hash(64).prop_map(PaOp::Init), 1 => Just(PaOp::Clear), 1 => (gens::block_hash(20), any::<u8>()).prop_map(|(s, b)| PaOp::InitRefused(s, b))], 1..=5),
                     proptest::collection::vec(gens::block_hash(64), 0..3),
                     proptest::collection::vec(any::<u8>(), 5),
                 )
@@ -314,7 +329,7 @@ pub fn subchecks(tier: Tier) -> Vec<SubCheck> {
                         for i in 1..ops.len() {
                             let prev = match &ops[i - 1] {
                                 PaOp::Init(s) => s.clone(),
-                                PaOp::Clear => continue,
+                                _ => continue,
                             };
                             if prev.len() < 2 {
                                 continue;
